@@ -26,7 +26,7 @@ BUDGET = {"quick": 900, "thorough": 7200}
 
 
 def plan(tier):
-    n = 60 if tier == "quick" else 2500
+    n = 120 if tier == "quick" else 2500
     return [{"kind": "hyp", "n": n} for _ in range(16)]
 
 
